@@ -134,12 +134,8 @@ func ruleV1(c *an.Ctx) {
 		if fn == nil {
 			return
 		}
-		var got []string
-		for cl := range p.Callers(fn) {
-			got = append(got, an.FnName(an.Outermost(cl)))
-		}
-		sort.Strings(got)
-		got = uniqStr(got)
+		// unexported helpers between an allowed caller and the function are looked through
+		got := effectiveCallers(p, fn, allowed)
 		ok, extra := subset(got, allowed)
 		c.Check("V1", "callers("+name+")", fn.Pos(), ok && len(got) > 0, fmt.Sprintf("allowed %v; found %v (unexpected %q)", allowed, got, extra))
 	}
